@@ -7,32 +7,12 @@ Import ListNotations.
 Open Scope string_scope.
 Open Scope Z_scope.
 
-(* Collections that decoders of broker / group-member data allocate from a count they do not validate: with the
-   guards the primitive getters have since fix 62134f8 the count -1 (a null array) still reaches make([]T, n), which
-   panics.  Genuine defects of the tree, one KNOWN_FINDINGS entry each (c10:panic:<label>).  The obligation below is
-   stated over the table minus exactly this list: a new unguarded site breaks it. *)
-Definition known_unguarded : list string := [
-  "AddPartitionsToTxnResponse.Errors[].val";
-  "AlterConfigsResponse.Resources";
-  "ApiVersionsResponse.ApiVersions";
-  "CreateAclsResponse.AclCreationResponses";
-  "DeleteAclsResponse.FilterResponses";
-  "DeleteAclsResponse.FilterResponses[].MatchingAcls";
-  "DescribeAclsResponse.ResourceAcls";
-  "DescribeAclsResponse.ResourceAcls[].Acls";
-  "DescribeConfigsResponse.Resources";
-  "DescribeConfigsResponse.Resources[].Configs";
-  "DescribeConfigsResponse.Resources[].Configs[].Synonyms";
-  "DescribeGroupsResponse.Groups";
-  "DescribeLogDirsResponse.LogDirs";
-  "DescribeLogDirsResponse.LogDirs[].Topics";
-  "DescribeLogDirsResponse.LogDirs[].Topics[].Partitions";
-  "IncrementalAlterConfigsResponse.Resources";
-  "MetadataResponse.Brokers";
-  "MetadataResponse.Topics";
-  "MetadataResponse.Topics[].Partitions";
-  "TxnOffsetCommitResponse.Topics[].val"
-].
+(* Collections that decoders of broker / group-member data allocate from a count they do not validate would be listed
+   here, one KNOWN_FINDINGS entry each (c10:panic:<label> / c10:alloc:<label>).  The list is EMPTY: the 20 sites of the
+   pinned tree (make([]T, n) reached with n = -1 from getArrayLength, e.g. MetadataResponse.Brokers) are repaired by
+   fixes/c10_negative_array_counts.patch (`if n >= 0 { x = make([]T, n) }`: a null array decodes as a nil collection).
+   The obligation below is stated over the whole table minus exactly this list: any unguarded site breaks it. *)
+Definition known_unguarded : list string := [].
 
 Definition is_known (s : string) : bool := existsb (String.eqb s) known_unguarded.
 
